@@ -8,6 +8,7 @@ mkdir -p .build evidence replays
 (cd harness && cargo build --release --offline --quiet)
 .build/target/release/wvh dump-consts > .build/Consts.lean.new
 cmp -s .build/Consts.lean.new lean/WowVerif/Gen/Consts.lean || cp .build/Consts.lean.new lean/WowVerif/Gen/Consts.lean
+python3 -c "import sys; sys.path.insert(0, 'tools'); import drivers; drivers.c19_pregen()"
 (cd lean && lake build WowVerif wvmodel)
 # the CLI binary used by the process-level checks (C11, C20), built from /repo's working tree
 (cd /repo && CARGO_TARGET_DIR=/verif/.build/cli-target cargo build -p warcraft-rs --offline --quiet)
